@@ -309,6 +309,11 @@ def _known(quirk):
 def register(props):
     global _P
     _P = props
+    # c09hello cases are whole plugin schemas nested up to the transport's limit: 8 of them re-evaluated inside Coq cost
+    # what 24 cases of another family cost (the in-Coq sample keeps extraction under test; the model comparison covers all)
+    if not hasattr(props, "COQ_SAMPLE_N"):
+        props.COQ_SAMPLE_N = {}
+    props.COQ_SAMPLE_N["c09hello"] = 8
     props.FAMILY_STATS["c09describe"] = describe_stats
     props.DIRECT[("C09", "c09describe")] = describe_direct
     props.EXPLAIN[("C09", "c09describe")] = describe_explain
